@@ -27,7 +27,7 @@ RULE = ('seeded two-file worlds: data file from the stub encoder (metadata-less 
         'refuses data reads. distinct = (segment shapes | program shape, index producer, backend, cut class); '
         'non-trivial = a channel with >= 1 value was compared with and without index')
 EXPECTED_PROBES = ['index-older-or-newer', 'descriptor-limit', 'names-changed-after-open', 'stub-index', 'writer-index', 'cut-data-complete-index', 'padding', 'segment-without-metadata',
-                   'index-only-path', 'index-only-stream', 'realpath']
+                   'index-only-path', 'index-only-stream', 'realpath', 'symbolic-links']
 
 
 def opts(tier):
@@ -65,6 +65,8 @@ def generate(rng, tier):
             'fd_limit': rng.random() < 0.08,
             # file-system times: the index is much older / newer than the data file (copied first, restored from a backup)
             'index_age': rng.choice([None] * 8 + [-3600.0, 7200.0]),
+            # both names are symbolic links into a content-addressed store whose entries carry no suffix
+            'linked': rng.random() < 0.1,
             'raw_ts': rng.random() < 0.4, 'win_seed': rng.getrandbits(32), 'debug_log': rng.random() < 0.05}
 
 
@@ -190,16 +192,19 @@ def execute(case):
         for with_index in (False, True):
             st.remove('w.tdms')
             st.remove('w.tdms_index')
-            st.put('w.tdms', data, real=real)
+            put = st.put_linked if case.get('linked') else st.put
+            if case.get('linked'):
+                res.probe('symbolic-links')
+            put('w.tdms', data, real=real)
             if with_index:
-                st.put('w.tdms_index', index, real=real)
+                put('w.tdms_index', index, real=real)
                 if case.get('index_age') is not None:
                     res.probe('index-older-or-newer')
                     if real:
                         t = os.path.getmtime(os.path.join(st.realdir(), 'w.tdms'))
                         os.utime(os.path.join(st.realdir(), 'w.tdms_index'), (t + case['index_age'], t + case['index_age']))
                     else:
-                        st.fs.mtimes['w.tdms_index'] = 1700000000.0 + case['index_age']
+                        st.fs.mtimes[st.fs.resolve('w.tdms_index')] = 1700000000.0 + case['index_age']
             path = os.path.join(st.realdir(), 'w.tdms') if real else SIM_ROOT + 'w.tdms'
             if case.get('pathlib'):
                 import pathlib
@@ -264,7 +269,7 @@ def execute(case):
             res.probe('marker-skips-index-only')
         if isinstance(ref, dict) and case['cut'] is None:
             st.remove('w.tdms')
-            st.put('only.tdms_index', index, real=real)
+            (st.put_linked if case.get('linked') else st.put)('only.tdms_index', index, real=real)
             ipath = os.path.join(st.realdir(), 'only.tdms_index') if real else SIM_ROOT + 'only.tdms_index'
             if case.get('pathlib'):
                 import pathlib
